@@ -2,10 +2,12 @@ package main
 
 import (
 	"fmt"
-	"math"
 	"go/constant"
 	"go/token"
 	"go/types"
+	"math"
+	"os"
+	"runtime/debug"
 	"strings"
 
 	"golang.org/x/tools/go/ssa"
@@ -15,62 +17,65 @@ type pathEnd struct{ why string }
 type goPanic struct{ msg string } // a Go-level panic raised inside verifapi.ExpectPanic
 
 type Machine struct {
-	prog     *ssa.Program
-	sol      *Solver
-	pc       []*Term
-	prefix   []int
-	dpos     int
-	trace    []int
-	alts     [][]int
-	globals  map[*ssa.Global]*Value
-	initing  map[*ssa.Package]bool
-	vars     []*Term
-	varSeen  map[string]bool
-	ndCount  map[string]int
-	steps    int
-	viol     []Violation
-	covers   map[string]bool
-	depth    int
-	maxAlloc *Term
-	lastModel map[string]uint64
-	cacheHits int
-	gs        []*G
-	cur       *G
-	events    chan gEvent
-	locked    map[*Value]bool
-	endWhy    string
+	prog         *ssa.Program
+	sol          *Solver
+	pc           []*Term
+	prefix       []int
+	dpos         int
+	trace        []int
+	alts         [][]int
+	globals      map[*ssa.Global]*Value
+	initing      map[*ssa.Package]bool
+	vars         []*Term
+	varSeen      map[string]bool
+	ndCount      map[string]int
+	steps        int
+	viol         []Violation
+	covers       map[string]bool
+	depth        int
+	maxAlloc     *Term
+	lastModel    map[string]uint64
+	cacheHits    int
+	gs           []*G
+	cur          *G
+	events       chan gEvent
+	locked       map[*Value]bool
+	endWhy       string
 	pendingPanic string
-	schedSteps int
-	harnessPkg *ssa.Package
-	lastPos token.Pos
-	schedLog []string
-	sleep    map[string]tkey
-	onceDone map[*Value]bool
-	atomicVals map[*Value]Value
-	useSleep bool
+	schedSteps   int
+	harnessPkg   *ssa.Package
+	lastPos      token.Pos
+	schedLog     []string
+	sleep        map[string]tkey
+	onceDone     map[*Value]bool
+	atomicVals   map[*Value]Value
+	useSleep     bool
 
-	entered    map[string]int
-	unmodelled map[string]int
-	redirUsed  map[string]int
-	redirects  map[string]string
-	params     map[string]int
-	concrete   map[string]uint64 // L1 replay: every nondet value is taken from this model
-	spec       *JobSpec
-	counters   map[string]int
-	rlocked    map[*Value]int
-	wgCount    map[*Value]int
-	loopBound  int
-	schedBound int
-	asserts    int
-	chanSeq    int
-	opaqueSeq  int
+	entered     map[string]int
+	unmodelled  map[string]int
+	redirUsed   map[string]int
+	redirects   map[string]string
+	params      map[string]int
+	concrete    map[string]uint64 // L1 replay: every nondet value is taken from this model
+	spec        *JobSpec
+	counters    map[string]int
+	rlocked     map[*Value]int
+	wgCount     map[*Value]int
+	loopBound   int
+	schedBound  int
+	asserts     int
+	chanSeq     int
+	opaqueSeq   int
 	expectPanic int
-	preempts   int
-	lastNow    *Term
+	preempts    int
+	lastNow     *Term
 	onceRunning map[*Value]bool
-	symReads   map[string][]symRead
-	schedTrace []int
-	fallbackMs int
+	symReads    map[string][]symRead
+	schedTrace  []int
+	fallbackMs  int
+	poisonedG   map[*ssa.Global]string
+	gWritten    map[*ssa.Global]bool
+	initDepth   int
 }
 
 type symRead struct{ idx, val *Term }
@@ -548,6 +553,12 @@ func (m *Machine) constVal(c *ssa.Const) Value {
 
 // lazy global init: run the package init once (skipping dependency inits), tolerant
 func (m *Machine) globalSlot(g *ssa.Global) *Value {
+	if why, bad := m.poisonedG[g]; bad {
+		if m.initDepth > 0 {
+			panic("reads poisoned global " + g.String())
+		}
+		panic(pathEnd{"poisoned: global " + g.String() + " was not initialised (init aborted: " + why + ")"})
+	}
 	if s, ok := m.globals[g]; ok {
 		return s
 	}
@@ -581,13 +592,19 @@ func (m *Machine) runInit(pkg *ssa.Package) {
 			if pe, ok := r.(pathEnd); ok {
 				panic(pe)
 			}
-			fmt.Printf("  [init of %s aborted: %v]\n", pkg.Pkg.Path(), r)
+			if os.Getenv("VERIF_DEBUG_INIT") != "" {
+				fmt.Printf("  [init of %s aborted: %v @ %s]\n%s\n", pkg.Pkg.Path(), r, m.prog.Fset.Position(m.lastPos), trimStack(string(debug.Stack())))
+			}
+			m.initDepth--
+			m.poisonPkg(pkg, fmt.Sprint(r))
 			if pkg == m.harnessPkg {
 				panic(fmt.Sprintf("init of analysed package aborted: %v", r))
 			}
 		}
 	}()
+	m.initDepth++
 	m.call(init, nil, true)
+	m.initDepth--
 }
 
 func posOf(m *Machine, in ssa.Instruction) string { return m.prog.Fset.Position(in.Pos()).String() }
@@ -689,6 +706,12 @@ func (m *Machine) exec(fr *Frame, in ssa.Instruction, isInit bool) {
 		}
 	case *ssa.Store:
 		m.store(m.get(fr, x.Addr), m.get(fr, x.Val))
+		if g, ok := x.Addr.(*ssa.Global); ok && m.initDepth > 0 {
+			if m.gWritten == nil {
+				m.gWritten = map[*ssa.Global]bool{}
+			}
+			m.gWritten[g] = true
+		}
 	case *ssa.UnOp:
 		fr.env[x] = m.unop(fr, x)
 	case *ssa.BinOp:
@@ -1377,4 +1400,28 @@ func (m *Machine) panicText(fr *Frame, x *ssa.Panic) string {
 		}
 	}
 	return "panic"
+}
+
+// poisonPkg: the initialiser of a dependency package could not be evaluated completely, so
+// its package-level variables may hold wrong (zero) values.  Reading one of them later ends
+// the path as inconclusive instead of silently computing with a wrong value.
+func (m *Machine) poisonPkg(pkg *ssa.Package, why string) {
+	if m.poisonedG == nil {
+		m.poisonedG = map[*ssa.Global]string{}
+	}
+	for name, mem := range pkg.Members {
+		f, ok := mem.(*ssa.Function)
+		if !ok || !(name == "init" || strings.HasPrefix(name, "init#")) {
+			continue
+		}
+		for _, b := range f.Blocks {
+			for _, in := range b.Instrs {
+				if st, ok := in.(*ssa.Store); ok {
+					if g, ok := st.Addr.(*ssa.Global); ok && g.Pkg == pkg && !m.gWritten[g] {
+						m.poisonedG[g] = why
+					}
+				}
+			}
+		}
+	}
 }
